@@ -82,7 +82,7 @@ def _run_lib(plan, world, extra):
     for op in plan['ops']:
         if op.get('files'):
             # the files an operation finds (rewritten between two calls)
-            world.fs.files.update(op['files'])
+            world.fs.update(op['files'])
         sys.stderr.flush()
         e0 = os.lseek(2, 0, os.SEEK_CUR)
         o = op.get('opts', {})
